@@ -12,7 +12,7 @@ import (
 func init() {
 	register("C20", PropCheck{
 		Title:      "Session end restarts cleanly; termination stays blocked",
-		Explain:    "Structural clauses: (R1) the dead-code check sets TERMINATE exactly on the 'not reading input' (READIN unset) edge, and Vm.Run consults it when code runs out; (R2) the engine marks a graceful end (exiting=true) only behind 'no code left' AND the DIRTY flag test, Flush runs the engine reset on every non-error path on which exiting may be set, and the reset unwinds State and cache in pairs (Up/Pop), restarts the state and clears TERMINATE and DIRTY on every success path; (R3) when no code is pending, init injects MOVE <configured root> as the code to run; (R4) blocked stays blocked: in exec the remaining code is only recorded behind the TERMINATE-unset edge after the run (a terminated run is never classified as a graceful end), Run dispatches nothing without passing the TERMINATE gate, and constant resets of TERMINATE exist only behind Run's own test and in the session-restart path, and no code outside package state stores to the flag bit field (a migration or copy of the field can drop TERMINATE; added after seeded change C20-H); (R5) the reset path writes flag bytes only as 'byte 0 := 0' or through the constant resets, so client flags (8 and up) are kept; (R6) Finish stores what the request left: every return of Finish passes Persister.Save, the initd==false edge or the no-persister edge - no other condition may skip the save, in particular not one that holds exactly after the unwind of a graceful end (added after seeded change C20-F); (R7) the destructive read of the last loaded value (Cache.Last) is not called - directly or through calls - on a path that leads to the call whose result the engine keeps as the exit value, so a debug hook or log line cannot empty the final page (added after seeded change C20-G). (R8) = C17 R5: every Save that Finish performs lies behind the initd==true edge, so what the pre-VM hook's clean-up did to a blocked session's flags is never stored (added after seeded change C20-I). (R9) = C17 R8 (Loop finishes the engine on every exit); (R10) every path to the INCMP handler's move passes the constant ResetFlag(FLAG_READIN) (added after seeded changes C20-K and C20-L).",
+		Explain:    "Structural clauses: (R1) the dead-code check sets TERMINATE exactly on the 'not reading input' (READIN unset) edge, and Vm.Run consults it when code runs out; (R2) the engine marks a graceful end (exiting=true) only behind 'no code left' AND the DIRTY flag test, Flush runs the engine reset on every non-error path on which exiting may be set, and the reset unwinds State and cache in pairs (Up/Pop), restarts the state and clears TERMINATE and DIRTY on every success path; (R3) when no code is pending, init injects MOVE <configured root> as the code to run; (R4) blocked stays blocked: in exec the remaining code is only recorded behind the TERMINATE-unset edge after the run (a terminated run is never classified as a graceful end), Run dispatches nothing without passing the TERMINATE gate, and constant resets of TERMINATE exist only behind Run's own test and in the session-restart path, and no code outside package state stores to the flag bit field (a migration or copy of the field can drop TERMINATE; added after seeded change C20-H); (R5) the reset path writes flag bytes only as 'byte 0 := 0' or through the constant resets, so client flags (8 and up) are kept; (R6) Finish stores what the request left: every return of Finish passes Persister.Save, the initd==false edge or the no-persister edge - no other condition may skip the save, in particular not one that holds exactly after the unwind of a graceful end (added after seeded change C20-F); (R7) the destructive read of the last loaded value (Cache.Last) is not called - directly or through calls - on a path that leads to the call whose result the engine keeps as the exit value, so a debug hook or log line cannot empty the final page (added after seeded change C20-G). (R8) = C17 R5: every Save that Finish performs lies behind the initd==true edge, so what the pre-VM hook's clean-up did to a blocked session's flags is never stored (added after seeded change C20-I). (R9) = C17 R8 (Loop finishes the engine on every exit); (R10) every path to the INCMP handler's move passes the constant ResetFlag(FLAG_READIN) (added after seeded changes C20-K and C20-L). (R11) = C06 R12: the pending code is consumed when fetched. (R12) once the pre-VM hook's deferred ResetFlag(TERMINATE) is registered, every place where true becomes the hook's first result lies behind the TERMINATE-unset edge (added after seeded change C20-N). (R13) every return of Vm.Render, error returns included, passes ResetFlag(DIRTY) or the DIRTY-unset edge (added after seeded change C20-M).",
 		NotDecided: "what later requests output over histories and back ends; that the restart point equals the application's intended entry node (it is the configured root).",
 		Run:        runC20,
 	})
